@@ -244,7 +244,9 @@ def build_family(case: dict[str, Any]) -> tuple[dict[str, str], str]:
     kind = case["family"]
     n = case["cycle"]
     ws = case["wrappers"]
-    names = [f"t{i}" for i in range(n)]
+    # directory-qualified names: a loaded template's own name is its basename, which differs from the name the tag asked for
+    style = case.get("names", "plain")
+    names = [{"plain": f"t{i}", "dirs": f"layouts/sub{i}/t{i}", "samebase": f"d{i}/t"}[style] for i in range(n)]
     tpls: dict[str, str] = {}
     if kind in ("include", "render", "mixed"):
         for i, nm in enumerate(names):
@@ -255,7 +257,7 @@ def build_family(case: dict[str, Any]) -> tuple[dict[str, str], str]:
                 call = "{% render '" + nxt + "' for xs %}"
             tpls[nm] = f"<{nm}>" + wrap(call, ws if i == 0 or case.get("wrap_all") else [])
         # `include` is not allowed inside a rendered partial: a mixed cycle is built so that includes precede renders only at the entry
-        return tpls, "t0"
+        return tpls, names[0]
     if kind == "call":
         body = wrap("{% call 'm0' %}", ws)
         if n == 1:
@@ -270,7 +272,7 @@ def build_family(case: dict[str, Any]) -> tuple[dict[str, str], str]:
         # cycle of extends; `entry` extra templates lead into the cycle without being part of it
         for i, nm in enumerate(names):
             tpls[nm] = "{% extends '" + names[(i + 1) % n] + "' %}{% block b %}<" + nm + ">{% endblock %}"
-        leaf = "t0"
+        leaf = names[0]
         for j in range(case.get("entry", 0)):
             nm = f"e{j}"
             tpls[nm] = "{% extends '" + leaf + "' %}{% block b %}<" + nm + ">{{ block.super }}{% endblock %}"
@@ -342,7 +344,7 @@ def judge_family(ctx: core.Ctx, case: dict[str, Any]) -> None:
     elif out.err_class in ALLOWED_END:
         ctx.count("families_cut_off_by_" + out.err_class)
     elif not out.is_liquid_error:
-        ctx.violation(f"family-ends-in-{out.err_class}:{sig_tail}", f"rendering {entry!r} of {tpls!r:.400} ended in {out.err_class}: {str(out.exc)[:100]}", {"templates": tpls})
+        ctx.violation(f"family-ends-in-{out.err_class}:{sig_tail}", f"rendering {entry!r} of {tpls!r:.400} ended in {out.err_class}: {drv.safe_str(out.exc)[:100]}", {"templates": tpls})
         return
     else:
         ctx.count("families_other_liquid_error:" + str(out.err_class))
@@ -430,7 +432,7 @@ def family_cases(ctx: core.Ctx, rng):
                     continue
                 kinds = [rng.choice(list(WRAPPERS)) for _ in range(d)]
                 # (a macro is not visible inside its own body, so a "recursive" call is an undefined macro and need not be cut off)
-                case = {"kind": "family", "family": fam, "cycle": cycle, "wrappers": kinds, "async": k % 5 == 0, "must_cut": fam != "call"}
+                case = {"kind": "family", "family": fam, "cycle": cycle, "wrappers": kinds, "async": k % 5 == 0, "must_cut": fam != "call", "names": ["plain", "dirs", "samebase"][k % 3]}
                 if fam == "mixed":
                     case["tags"] = ["include", "render"] if cycle > 1 else ["render"]
                 if fam == "extends":
